@@ -185,7 +185,11 @@ class Gen(object):
             return self.rng.choice(self.BRACKETED)
         n = self.rng.randint(1, 4)
         alpha = SAFE_TEXT if not math else 'abcxyzn0123456789'
-        return ''.join(self.rng.choice(alpha) for _ in range(n))
+        t = ''.join(self.rng.choice(alpha) for _ in range(n))
+        if not math and self.p.get('unicode_text', 0.06) and self.rng.random() < self.p.get('unicode_text', 0.06):
+            # non-ASCII text (one code point each, incl. astral): positions are code-point offsets
+            t += self.rng.choice(['é', 'ß', 'λ', '中', '\U0001d538', 'ñ', '€'])
+        return t
 
     def ws(self):
         return self.rng.choice(WS_CHOICES)
